@@ -549,6 +549,31 @@ func GenCase(r *rand.Rand, o GenOpts) Case {
 		tag += "+ctxserved"
 		qhint += 5
 	}
+	if useSubs && n >= 4 && r.Intn(8) == 0 {
+		// one context shared by two WhenTime waiters, the one over two states is served first, the
+		// context ends, transitions that leave the other waiter's state alone run: it is released by
+		// its context
+		p := r.Perm(n)
+		k := nextId
+		nextId++
+		ctxs = append(ctxs, k)
+		lines = append(lines, "ctx new", fmt.Sprintf("sub whentime:%d,%d:1,1:%d", p[0], p[1], k), fmt.Sprintf("sub whentime:%d:9:%d", p[2], k),
+			fmt.Sprintf("add %d", p[0]), fmt.Sprintf("add %d", p[1]), fmt.Sprintf("ctx cancel %d", k), fmt.Sprintf("add %d", p[3]), fmt.Sprintf("remove %d", p[0]))
+		tag += "+ctxshared"
+		qhint += 5
+	}
+	if useSubs && n >= 2 && r.Intn(8) == 0 {
+		// When and WhenNot over the same two states with the same context, the set partly active
+		p := r.Perm(n)
+		c := "-"
+		if len(ctxs) > 0 && r.Intn(2) == 0 {
+			c = fmt.Sprint(ctxs[0])
+		}
+		lines = append(lines, fmt.Sprintf("remove %d,%d", p[0], p[1]), fmt.Sprintf("add %d", p[0]), fmt.Sprintf("sub when:%d,%d:%s", p[0], p[1], c), fmt.Sprintf("sub whennot:%d,%d:%s", p[0], p[1], c),
+			fmt.Sprintf("add %d", p[1]), fmt.Sprintf("remove %d", p[0]), fmt.Sprintf("remove %d", p[1]))
+		tag += "+polarity"
+		qhint += 6
+	}
 	for i := 0; i < nops; i++ {
 		if useSubs && r.Float64() < 0.45 {
 			switch {
